@@ -898,6 +898,20 @@ class EvalFuncVarClassInst(EvalFuncVar):
         self.ast_ctx = ast_ctx
         self.class_inst_weak = class_inst_weak
 
+    def __eq__(self, other):
+        """Bound methods are equal if they bind the same function to the same instance (as in Python).
+
+        A new wrapper is made at every attribute lookup; without this obj.method could not be used
+        as a key (task.add_done_callback would add it twice, task.remove_done_callback never find it).
+        """
+        if not isinstance(other, EvalFuncVarClassInst):
+            return NotImplemented
+        return self.func is other.func and self.class_inst_weak() is other.class_inst_weak()
+
+    def __hash__(self):
+        """Hash consistent with __eq__."""
+        return hash((id(self.func), id(self.class_inst_weak())))
+
     async def call(self, ast_ctx, *args, **kwargs):
         """Call the EvalFunc function."""
         return await self.func.call(ast_ctx, self.class_inst_weak(), *args, **kwargs)
